@@ -1,7 +1,7 @@
 SPECIFICATION Spec
 CONSTANTS
   Mode = "paths"
-  Resps = {"absent", "correct", "substituted", "empty", "error", "nopayload"}
+  Resps = {"absent", "correct", "substituted", "empty", "error"}
   FlagSet = {"-", "direct", "transport", "ctl"}
   VerifyOn = {"transport", "relay", "control", "fallback", "local"}
   MaxNameLen = 0
